@@ -12,7 +12,7 @@ From AV Require Import Base.Bytes Base.Outcome Hash.HashModel Tree.Heap Tree.Ops
   Tree.CopyProofsDefs Tree.CopyProofsDeep Tree.CopyProofsCreate Tree.CopyProofsTop Tree.CopyProofsBridge
   Tree.CopyProofsTiny Tree.Frame Tree.CopyProofsReg Tree.CopyProofsFK Tree.CopyProofsDup Tree.CopyProofsRegId.
 From AV Require Import Tree.Serialize Tree.Script2 Tree.CopyProofsIrp Tree.CopyProofsIndep Tree.CopyProofsIndep2
-  Tree.CopyProofsTwo Tree.CopyProofsUnique Tree.CopyProofsText.
+  Tree.CopyProofsTwo Tree.CopyProofsUnique Tree.CopyProofsText Tree.CopyProofsBound.
 Open Scope list_scope.
 Open Scope N_scope.
 
@@ -380,4 +380,84 @@ Theorem C13_copy_text : forall T tab_el tab_at tab_en float_fmt LATEST h other p
        ser_heap T tab_el tab_at tab_en float_fmt fuel w None other indent inline =
        ser_heap T tab_el tab_at tab_en float_fmt fuel w' None c indent inline).
 Proof. exact copy_text. Qed.
+
+(* ================================================================== LinkBound is an invariant
+   op2_wf w o: the handles, model numbers and file ids an operation addresses exist in w.  dup_failed w o: o is a
+   duplicate() that returns an error in w.  (Tree/CopyProofsBound.v; the calculus is run for the region "everything at
+   or beyond the allocation bounds of the final world".) *)
+
+(* every operation only grows the world: allocation bound, number of models, number of files (OpLoad pending) *)
+Theorem C13_world_grows2_partial :
+  forall T tab_el tab_at tab_en check_fn float_parse float_fmt LATEST name_index name_definition_ref attr_schema_location
+         root_attrs o,
+  pending_indep2 o = false -> forall w r w',
+  run_op2 T tab_el tab_at tab_en check_fn float_parse float_fmt LATEST name_index name_definition_ref
+          attr_schema_location root_attrs o w = Val (r, w') -> Grow w w'.
+Proof. exact grows_run_op2. Qed.
+
+(* PARTIAL (OpLoad pending): every operation that addresses existing things and is not a failing duplicate keeps
+   LinkBound *)
+Theorem C13_linkbound_inv2_partial :
+  forall T tab_el tab_at tab_en check_fn float_parse float_fmt LATEST name_index name_definition_ref attr_schema_location
+         root_attrs o w r w',
+  pending_indep2 o = false -> LinkBound w -> op2_wf w o ->
+  ~ dup_failed T tab_el tab_en check_fn LATEST root_attrs w o ->
+  run_op2 T tab_el tab_at tab_en check_fn float_parse float_fmt LATEST name_index name_definition_ref
+          attr_schema_location root_attrs o w = Val (r, w') -> LinkBound w'.
+Proof. exact LinkBound_step2. Qed.
+
+(* ... hence every world reached from the empty world by such operations has LinkBound *)
+Theorem C13_linkbound_reachable2_partial :
+  forall T tab_el tab_at tab_en check_fn float_parse float_fmt LATEST name_index name_definition_ref attr_schema_location
+         root_attrs l w',
+  lb_ok T tab_el tab_at tab_en check_fn float_parse float_fmt LATEST name_index name_definition_ref attr_schema_location
+        root_attrs l empty_world ->
+  run_ops2 T tab_el tab_at tab_en check_fn float_parse float_fmt LATEST name_index name_definition_ref
+           attr_schema_location root_attrs l empty_world = Val w' -> LinkBound w'.
+Proof. exact LinkBound_reachable. Qed.
+
+(* the class dup_failed is real and does break LinkBound IN THE MODEL: a failing duplicate() drops the copy's model
+   record and files, but the nodes it allocated stay (Tree/Copy.v: in the library they are freed with the model, no
+   handle to them exists); the copy's root keeps `PModel c` for the dropped c.  Witness on a tiny table set. *)
+Theorem C13_failed_duplicate_dangles :
+  TinyFail.run_script2 TinyFail.script Tiny13.empty_world = Val TinyFail.w_x /\
+  (exists e, TinyFail.dup2 0 TinyFail.w_x = Val (ER e, TinyFail.w_x')) /\
+  (exists n, w_nodes TinyFail.w_x' 2 = Some n /\ n_parent n = PModel 1) /\
+  List.length (w_models TinyFail.w_x') = 1%nat /\
+  ~ LinkBound TinyFail.w_x'.
+Proof. exact TinyFail.failed_duplicate_dangles. Qed.
+
+(* C13_two_sided without the state hypothesis: LinkBound is needed of the first state only (two_wf: every operation
+   works on one side, addresses existing things, is neither OpLoad nor a failing duplicate) *)
+Theorem C13_two_sided_wf :
+  forall T tab_el tab_at tab_en check_fn float_parse float_fmt LATEST name_index name_definition_ref attr_schema_location
+         root_attrs l s w,
+  Two s w -> LinkBound w ->
+  two_wf T tab_el tab_at tab_en check_fn float_parse float_fmt LATEST name_index name_definition_ref attr_schema_location
+         root_attrs l s w ->
+  two_indep T tab_el tab_at tab_en check_fn float_parse float_fmt LATEST name_index name_definition_ref
+            attr_schema_location root_attrs l s w.
+Proof. exact two_sided_wf. Qed.
+
+(* DUPLICATE, THEN INDEPENDENT, from the empty world: any history l0 (lb_ok), then a duplicate() that succeeds, then any
+   history l of one-sided operations (two_wf): the duplicate leaves everything that existed alone, original side and
+   copy side are Two sides, and every later step leaves the side it does not work on alone *)
+Theorem C13_duplicate_then_independent_histories :
+  forall T tab_el tab_at tab_en check_fn float_parse float_fmt LATEST name_index name_definition_ref attr_schema_location
+         root_attrs l0 m l w0 r w1,
+  lb_ok T tab_el tab_at tab_en check_fn float_parse float_fmt LATEST name_index name_definition_ref attr_schema_location
+        root_attrs l0 empty_world ->
+  run_ops2 T tab_el tab_at tab_en check_fn float_parse float_fmt LATEST name_index name_definition_ref
+           attr_schema_location root_attrs l0 empty_world = Val w0 ->
+  run_op2 T tab_el tab_at tab_en check_fn float_parse float_fmt LATEST name_index name_definition_ref
+          attr_schema_location root_attrs (OpDuplicate m) w0 = Val (r, w1) ->
+  ~ dup_failed T tab_el tab_en check_fn LATEST root_attrs w0 (OpDuplicate m) ->
+  two_wf T tab_el tab_at tab_en check_fn float_parse float_fmt LATEST name_index name_definition_ref attr_schema_location
+         root_attrs l (after_dup w0 w1) w1 ->
+  Same (fun i => i < w_next w0) (fun k => k < N.of_nat (List.length (w_models w0)))
+       (fun f => f < N.of_nat (List.length (w_files w0))) w0 w1 /\
+  Two (after_dup w0 w1) w1 /\
+  two_indep T tab_el tab_at tab_en check_fn float_parse float_fmt LATEST name_index name_definition_ref
+            attr_schema_location root_attrs l (after_dup w0 w1) w1.
+Proof. exact duplicate_then_independent_histories. Qed.
 
